@@ -28,11 +28,13 @@
 Measured (machine shared with ~100 other busy processes, so CPU seconds are the
 reliable number; wall on 16 free cores is about CPU/16):
   quick     (a) len<=5: 271 453 strings, (b) len<=5 over 16 events: 1 118 481 sequences;
-            2 995 889 evaluations, 92 outcome signatures (61 non-trivial), ~235 CPU-s (~15-20 s wall on 16 cores)
+            (c) len<=5 over 10 events: 111 111 sequences x emoji on/off x 3 entry points;
+            3 662 555 evaluations, 311 outcome signatures (148 non-trivial), ~275 CPU-s (~20-25 s wall on 16 free cores)
   thorough  (a) len<=6 over 12 symbols + len 7 over 11 symbols ('b' dropped: same regex class as 'a';
             embeddings with emoji=False only): 22 744 608 strings,
             (b) len<=6 over 16 events + len 7 over a 9-event and a 10-event sub-alphabet: 32 678 666 sequences;
             134 570 660 evaluations, 146 signatures (115 non-trivial), ~9 000 CPU-s (~10 min wall on 16 free cores)
+            -- measured before part (c) was added; (c) thorough = 3 257 437 sequences x 6, est. +1 400 CPU-s
 """
 import io
 import itertools
@@ -109,9 +111,15 @@ class _Keyed(RefStyle):
 
 
 def _crash_key(exc):
-    tb = traceback.extract_tb(exc.__traceback__)
-    inside = [f for f in tb if os.sep + "rich" + os.sep in f.filename] or list(tb)
-    f = inside[-1]
+    """crash/<type>/<file>:<function of the innermost rich frame>; when the exception surfaced outside rich
+    (a generator's StopIteration re-raised as RuntimeError) the frame is taken from its cause."""
+    frames = []
+    e = exc
+    while e is not None and not frames:
+        tb = traceback.extract_tb(e.__traceback__)
+        frames = [f for f in tb if os.sep + "rich" + os.sep in f.filename]
+        e = e.__cause__ or e.__context__
+    f = (frames or list(traceback.extract_tb(exc.__traceback__)))[-1]
     return "crash/%s/%s:%s" % (type(exc).__name__, os.path.basename(f.filename), f.name)
 
 
